@@ -259,7 +259,63 @@ func c12Confinement(c *run.Ctx) {
 
 // c12PartialConsent: the resource owner grants less than was requested (all of it inside the client's policy);
 // tokens from the authorization endpoint, from the code exchange and from a refresh carry exactly what was granted.
+// c12RefreshAfterReregistration: the refresh flow under every strategy - once the client's registration no longer covers a
+// scope or an audience of the grant (the record is replaced, or edited in place), a refresh is not accepted; while it still
+// covers everything, it is.
+func c12RefreshAfterReregistration(c *run.Ctx) {
+	if !c.Mine(6) && c.NShards > 6 {
+		return
+	}
+	for _, sst := range []string{"wildcard", "hierarchic", "exact"} {
+		for _, edit := range []string{"none", "drop-scope", "drop-audience", "narrow-audience-path"} {
+			for _, replace := range []bool{true, false} {
+				w := world.New(world.Opts{Cfg: func(cfg *fosite.Config) { cfg.ScopeStrategy = implScope[sst] }})
+				scopes := map[string][]string{"wildcard": {"offline", "photos.*"}, "hierarchic": {"offline", "photos"}, "exact": {"offline", "photos.read"}}[sst]
+				sp := world.ClientSpec{ID: "c12r", Secret: "s12r", RedirectURIs: []string{"https://c12r.example/cb"}, GrantTypes: world.AllGrants, ResponseTypes: world.AllResponseTypes,
+					Scopes: scopes, Audience: []string{"https://api.example/v1", "https://rs.example"}}
+				w.AddClient(sp)
+				a := world.Basic("c12r", "s12r")
+				t := w.Token(url.Values{"grant_type": {"password"}, "username": {world.UserName}, "password": {world.UserPass}, "scope": {"offline photos.read"}, "audience": {"https://api.example/v1/users"}}, a)
+				if t.Err != nil || t.S("refresh_token") == "" {
+					c.Inconcl("refresh-after-reregistration: no grant under " + sst + ": " + world.ErrDetail(t.Err))
+					continue
+				}
+				nsp := sp
+				switch edit {
+				case "drop-scope":
+					nsp.Scopes = []string{"offline"}
+				case "drop-audience":
+					nsp.Audience = []string{"https://rs.example"}
+				case "narrow-audience-path":
+					nsp.Audience = []string{"https://api.example/v1/users/me", "https://rs.example"}
+				}
+				if replace {
+					w.Mem.Clients["c12r"] = nsp.Build()
+				} else {
+					dc := world.DC(w.Client("c12r"))
+					dc.Scopes, dc.Audience = nsp.Scopes, nsp.Audience
+				}
+				r := w.Token(url.Values{"grant_type": {"refresh_token"}, "refresh_token": {t.S("refresh_token")}}, a)
+				c.Case(fmt.Sprintf("refresh-after-reregistration strategy=%s edit=%s replaced=%v accepted=%v err=%s", sst, edit, replace, r.Err == nil, r.ErrName))
+				c.Count("c12_refresh_after_reregistration", 1)
+				if edit == "none" {
+					if r.Err != nil {
+						c.Count("c12_in_policy_refused:refresh", 1)
+					}
+					continue
+				}
+				c.Count("c12_out_of_policy_refused", 1)
+				if r.Err == nil {
+					c.Violate(run.Violation{Kind: "out-of-policy-accepted", Key: fmt.Sprintf("out-of-policy-accepted flow=refresh edit=%s", edit),
+						Detail: fmt.Sprintf("strategy %s, registration %s (replaced=%v): the refresh was accepted although the registration no longer covers the grant (scopes %v audience %v)", sst, edit, replace, nsp.Scopes, nsp.Audience)})
+				}
+			}
+		}
+	}
+}
+
 func c12PartialConsent(c *run.Ctx) {
+	c12RefreshAfterReregistration(c)
 	if !c.Mine(5) && c.NShards > 5 {
 		return
 	}
